@@ -170,6 +170,10 @@ func Bound(name string, quick, thorough int) int {
 }
 
 func AllocLimit(n int)  {}
+
+// AllocBound: allocations whose symbolic length can exceed n are explored only up to n
+// (larger ones are outside the claim, and counted in the evidence).
+func AllocBound(n int) {}
 func Preemptions(n int) {}
 
 // Symbolic reports whether the harness runs under the symbolic executor.
@@ -304,3 +308,30 @@ func LoopPostUint64(name string) uint64                       { return 0 }
 func LoopPostInt32(name string) int32                         { return 0 }
 func LoopPostBool(name string) bool                           { return false }
 func LoopPostIsNil(name string) bool                          { return false }
+
+// ---- C16 helpers ----
+
+// InitPackage runs the package-level variable initialisers of a dependency that is not in
+// the engine's default init list (symbolic runs only; natively Go has already done it).
+func InitPackage(path string) {}
+
+// NativeClock replaces the recorded clock readings that Now() hands out during a native
+// replay (a no-op under the symbolic executor). Harnesses whose environment is a real
+// loopback socket natively use it to turn a modelled I/O fault into an expired deadline.
+func NativeClock(readings []int64) {
+	mu.Lock()
+	defer mu.Unlock()
+	rf.Clock = readings
+	clockN = 0
+}
+
+// Since is time.Since on the model clock (the replay overlay rewrites time.Since to it).
+func Since(t time.Time) time.Duration { return Now().Sub(t) }
+
+// NativeClockUsed reports how many recorded readings Now() has handed out since the last
+// NativeClock call (native replay only; 0 under the symbolic executor).
+func NativeClockUsed() int {
+	mu.Lock()
+	defer mu.Unlock()
+	return clockN
+}
